@@ -374,7 +374,7 @@ class RegexVM:
                 pc += 1
 
             elif opcode == Op.LINE_START_M:
-                if sp != 0 and (sp >= len(string) or string[sp - 1] != "\n"):
+                if sp != 0 and string[sp - 1] != "\n":
                     if not stack:
                         return None
                     pc, sp, captures, registers = self._backtrack(stack)
